@@ -6,6 +6,7 @@ From Coq Require Import Strings.Byte.
 Require Import BS.Bytes BS.Common BS.Api BS.Layout BS.Format BS.FormatFacts BS.Spec BS.SpecStep BS.Sections.
 Require Import BS.FS BS.FSFacts BS.Meta BS.MetaFacts BS.Header BS.Reader BS.ReaderFacts BS.Index BS.Data BS.DataFacts BS.Seek BS.SeekFacts BS.Series BS.SeriesFacts BS.ReadAllFacts BS.PagingFacts BS.PagingModelFacts.
 Require Import BS.World BS.Judge BS.JudgeFacts.
+Require Import BS.CacheFacts BS.JudgeCacheFacts.
 Import ListNotations.
 
 (* (I refines S) the first n >= 1 lines of a range are exactly the first min(n, k) of the k lines a full read
@@ -49,3 +50,11 @@ Theorem C13_session_accepted_by_judge : forall (name:list byte) (p:nat) (hdr:lis
   accepted World.init_world judge_init (ONew name (N.of_nat p) hdr [] cb :: ops).
 Proof. exact session_accepted. Qed.
 Print Assumptions C13_session_accepted_by_judge.
+
+(* the same for a series WITH cache levels (invariant RepS, props/C08.v): these calls never look at the levels, so what holds
+   for the series without them holds with them *)
+Theorem C13_first_n_with_caches : forall fs s p hdr ihdr l cs, RepS fs s p hdr ihdr l cs -> forall n lo hi, (1 <= n)%N ->
+  read_first_n s n lo hi fs = (fs, Ok (firstn (N.to_nat (N.min n (len (select lo hi l)))) (select lo hi l)))
+  \/ (select lo hi l = [] /\ read_first_n s n lo hi fs = (fs, Err ERange)).
+Proof. exact read_first_n_caches. Qed.
+Print Assumptions C13_first_n_with_caches.
